@@ -214,6 +214,7 @@ func (h *Session) Parse(p []byte) (frame Frame, err error) {
 		frame.SrcAddr.IP = ip6.Src()
 		frame.DstAddr.IP = ip6.Dst()
 		frame.offsetIP6 = frame.offsetPayload
+		frame.ether = frame.ether[:frame.offsetIP6+ip6.HeaderLen()+int(ip6.PayloadLen())] // drop ethernet padding: the datagram ends at PayloadLen
 		frame.offsetPayload = frame.offsetPayload + ip6.HeaderLen()
 		// create host if src IP is:
 		//     - unicast local link address (i.e. fe80::)
